@@ -10,7 +10,7 @@ import numpy as np
 
 from pysym import values
 from pysym.core import Interp, SelfObj, Stub
-from pysym.values import INTDOM
+from pysym.values import PathRaise, INTDOM
 
 ALG = 'spatialpandas.geometry._algorithms.intersection'
 BND = 'spatialpandas.geometry._algorithms.bounds'
@@ -23,6 +23,8 @@ UT = 'spatialpandas.utils'
 
 
 def same(a, b):
+    if isinstance(a, str) or isinstance(b, str):
+        return a == b
     if isinstance(a, (tuple, list)) or isinstance(b, (tuple, list)):
         a, b = list(a), list(b)
         return len(a) == len(b) and all(same(x, y) for x, y in zip(a, b))
@@ -235,9 +237,19 @@ def run(groups, seed=0, n=40):
             ps = rnd.randint(1, 4)
             q = [small(rnd) for _ in range(d)]
             q = tuple(q + [x + rnd.randint(0, 3) for x in q])
-            t_r = HilbertRtree(b, p=rnd.randint(1, 10), page_size=ps)
+            try:
+                t_r, exc_r = HilbertRtree(b, p=rnd.randint(1, 10), page_size=ps), None
+            except Exception as e:  # noqa: BLE001
+                t_r, exc_r = None, type(e).__name__
             t_i = HilbertRtree.__new__(HilbertRtree)
-            it.call(it.func(RT, 'HilbertRtree.__init__'), [t_i, b.copy()], {'p': 5, 'page_size': ps})
+            try:
+                it.call(it.func(RT, 'HilbertRtree.__init__'), [t_i, b.copy()], {'p': 5, 'page_size': ps})
+                exc_i = None
+            except PathRaise as e:
+                exc_i = getattr(e.exc, '__name__', str(e.exc))
+            if exc_r or exc_i:          # the constructor raises: both sides must agree on it
+                cmp('HilbertRtree.__init__ raises', exc_i, exc_r, (b.tolist(), ps))
+                continue
             gi = sorted(int(x) for x in it.call(it.getattr_(t_i, 'intersects', None, True), [q]))
             cmp('HilbertRtree.intersects', gi, sorted(int(x) for x in t_r.intersects(q)), (b.tolist(), ps, q))
             ci, oi = it.call(it.getattr_(t_i, 'covers_overlaps', None, True), [q])
